@@ -3,6 +3,7 @@ package p06
 import (
 	"github.com/btcsuite/btcd/btcec/v2"
 	"github.com/btcsuite/btcd/txscript/v2"
+	"github.com/btcsuite/btcd/wire/v2"
 	"verifharness/core"
 )
 
@@ -101,6 +102,30 @@ func genRegress() []caseSpec {
 		add("F-C06-d:not", wP2SH, txscript.ScriptBip16, p2pkNot, func(b *builtSpend) [][]byte {
 			return [][]byte{b.ecdsaSig(sigPlan{key: keys[1], ht: 1, variant: v}, p2pkNot, keys)}
 		})
+	}
+
+	// seeded change C06-d (caught in round 2; kept here so that it does not depend on the seed): a version-1
+	// witness program of 32 bytes nested in P2SH is NOT taproot; any witness spends it unless
+	// DISCOURAGE_UPGRADABLE_WITNESS_PROGRAM is set. Also the neighbouring shapes (lengths 31/33, version 2).
+	for _, shape := range []struct {
+		ver  byte
+		plen int
+	}{{0x51, 32}, {0x51, 31}, {0x51, 33}, {0x52, 32}} {
+		for _, fl := range []txscript.ScriptFlags{consensusAll, std, consensusAll &^ txscript.ScriptVerifyTaproot} {
+			for witN := 0; witN <= 2; witN++ {
+				witN := witN
+				wp := cat([]byte{shape.ver}, pushBytes(rep(0x42, shape.plen)))
+				pk := cat([]byte{0xa9, 0x14}, hash160(wp), []byte{0x87})
+				out = append(out, caseSpec{class: "gen:regress:nested-v1-program", sp: rawSpend(r, sh, fl, pk,
+					func(*wire.MsgTx, int, *txscript.MultiPrevOutFetcher, []*wire.TxOut) ([]byte, wire.TxWitness) {
+						var wit wire.TxWitness
+						for j := 0; j < witN; j++ {
+							wit = append(wit, rep(byte(0x60+j), 1+j*63))
+						}
+						return pushBytes(wp), wit
+					})})
+			}
+		}
 	}
 	return out
 }
